@@ -220,6 +220,64 @@ func (s *Session) ScanFieldModes(prop string) *FuncResult {
 		}
 		add(fmt.Sprintf("globals/immutable[%s]/scan-complete", gname), found, token.NoPos, fmt.Sprintf("%d functions scanned", len(s.P.AllFns)), props)
 	}
+	// closed-world frames of long-lived objects: elements are inserted only into the declared container fields
+	for _, tname := range sortedKeys(s.CS.Growing) {
+		args := s.CS.Growing[tname]
+		var allowed, props []string
+		for i, a := range args {
+			if a == "props" {
+				props = args[i+1:]
+				break
+			}
+			allowed = append(allowed, a)
+		}
+		if !hasProp(props, prop) {
+			continue
+		}
+		isAllowed := func(f string) bool {
+			for _, a := range allowed {
+				if tname+"."+a == f {
+					return true
+				}
+			}
+			return false
+		}
+		seen := 0
+		for _, fn := range s.P.AllFns {
+			for _, b := range fn.Blocks {
+				for _, in := range b.Instrs {
+					switch i := in.(type) {
+					case *ssa.MapUpdate:
+						f := fieldOfLoaded(i.Map)
+						if strings.HasPrefix(f, tname+".") {
+							seen++
+							if !isAllowed(f) {
+								add(fmt.Sprintf("closed-world[%s grows only in %s]@%s", tname, strings.Join(allowed, ","), f), false, in.Pos(),
+									"entries are inserted into "+f+" in "+s.P.ShortName(fn)+" ("+s.P.PosStr(in.Pos())+"): state of a long-lived object that no contract speaks about", props)
+							}
+						}
+					case *ssa.Store:
+						f, fa := fieldOfAddr(i.Addr)
+						if fa == nil || !strings.HasPrefix(f, tname+".") || freshBase(fa) {
+							continue
+						}
+						if _, isSlice := types.Unalias(i.Val.Type()).Underlying().(*types.Slice); !isSlice {
+							continue
+						}
+						if c, ok := i.Val.(*ssa.Const); ok && c.IsNil() {
+							continue
+						}
+						seen++
+						if !isAllowed(f) {
+							add(fmt.Sprintf("closed-world[%s grows only in %s]@%s", tname, strings.Join(allowed, ","), f), false, in.Pos(),
+								"a slice is stored into "+f+" in "+s.P.ShortName(fn)+" ("+s.P.PosStr(in.Pos())+"): state of a long-lived object that no contract speaks about", props)
+						}
+					}
+				}
+			}
+		}
+		add(fmt.Sprintf("closed-world[%s grows only in %s]/scan-complete", tname, strings.Join(allowed, ",")), len(allowed) == 0 || seen > 0, token.NoPos, fmt.Sprintf("%d functions scanned, %d insertions into declared fields", len(s.P.AllFns), seen), props)
+	}
 	// one positive obligation per declared field so that the scan is never vacuous
 	for _, name := range sortedKeys(s.CS.FieldModes) {
 		for _, m := range s.CS.FieldModes[name] {
